@@ -284,6 +284,12 @@ def gen_c14(seed):
             n += 1
         else:
             skipped.append((gid, fam))
+    # caller-supplied extra settings through the generic entry point
+    if any(g["id"] == "minecraftjava" for g in games):
+        lines.append('c14_args_harness!(c14_args_extra_minecraftjava, { args_mc_java_extra("minecraftjava") });')
+    for g in games:
+        if family_of(g["protocol"]) == "valve" and g["id"] in quick:
+            lines.append('c14_args_harness!(c14_args_extra_valve_%s, { args_valve_extra("%s") });' % (g["id"], g["id"]))
     table_names = {norm(g["name"]) for g in games}
     table_ids = {g["id"] for g in games}
     orphans = [m["module"] for m in mods if norm(m["name"]) not in table_names and m["module"] not in table_ids]
